@@ -1,4 +1,22 @@
-from checks import apifam
+from checks import apifam, concfam
 GUARDS = {"WalkCount", "WalkEveryLiveOnce", "WalkOnlyLive", "WalkRangesDisjoint", "AreaUsedCount", "AreasCoverAll", "StopsWhenFalse"}
 def run(tier, seed):
-    return apifam.run_api("C12", tier, seed, profiles=["c12"], builds=["rel", "dbg", "sec"], own_guards=GUARDS, gen=(12, 100))
+    # heap walking over histories with hole patterns, full pages (bulk groups), huge blocks, several heaps
+    V, cov = apifam.run_api("C12", tier, seed, profiles=["c12", "bulk", "c12"], builds=["rel", "dbg", "sec"], own_guards=GUARDS, gen=(12, 100), finish=False)
+    # abandoned blocks: threads exit leaving blocks behind; mi_abandoned_visit_blocks must report exactly them, stop on false, and stay complete afterwards
+    va = {"MIMALLOC_VISIT_ABANDONED": "1"}
+    va_os = {"MIMALLOC_VISIT_ABANDONED": "1", "MIMALLOC_DISALLOW_ARENA_ALLOC": "1"}
+    jobs = [
+        {"prog": "abvisit", "strategy": "random", "runs": (60, 800), "args": ["--rate", "3"], "env": va},
+        {"prog": "abvisit", "strategy": "pct", "runs": (40, 500), "args": [], "env": va},
+        {"prog": "abvisit", "strategy": "random", "runs": (40, 500), "args": ["--rate", "2"], "env": va_os},
+    ]
+    V, cov2 = concfam.run_conc("C12", tier, seed, jobs, GUARDS, mc=("MiAbandonMC", ("MiAbandon_mc.cfg", "MiAbandon_mc_thorough.cfg")), guided_progs=(), V=V, finish=False,
+                               crash_decisive=False)
+    cov["abandoned_visit"] = {k: cov2[k] for k in ("traces_validated_against_impl", "trace_events_validated", "programs", "strategies")}
+    cov["traces_validated_against_impl"] += cov2["traces_validated_against_impl"]
+    cov["samples"] = cov["samples"] + cov2["samples"][:2]
+    return V.finish("model_checking", cov, assumptions=[
+        "walks are made in states without pending cross-thread frees (the driver collects first); per-area used counts are compared when no bulk group lives in the heap",
+        "abandoned walks: MIMALLOC_VISIT_ABANDONED=1, arena and OS-allocated segments; the main thread does not allocate between thread exit and the walks (no adoption in between)",
+        "TLC and harness measurements trusted; bounded MiApiMC constants"])
